@@ -1,5 +1,5 @@
 (* Props/C08.v — property C08: symmetry under class swap, direction reversal and rescaling. Statements only. *)
-From SA Require Import Model.Symmetry Model.Threshold Proofs.SymmetryFacts Proofs.InvIncrFacts Proofs.EquivarianceFacts.
+From SA Require Import Model.Symmetry Model.Threshold Proofs.SymmetryFacts Proofs.InvIncrFacts Proofs.EquivarianceFacts Proofs.NegationFacts.
 Open Scope Q_scope.
 
 (* swap() exchanges the roles of the classes exactly: at EVERY threshold (incl. +-inf), for all score
@@ -40,8 +40,7 @@ Print Assumptions C08_affine_cm.
    direction (increasing / ratio_class), configuration and method, the threshold returned by
    _threshold_at_ratio for the mapped scores is the mapped threshold — whenever the (normalised)
    target is interior, i.e. not answered by a one-ulp sentinel.  At a sentinel exact equivariance is
-   false in binary64 (nextafter(a*x+b) <> a*nextafter(x)+b); there, and for negation (where the mirrored
-   threshold can differ by the sentinel / last-sample convention), for EER thresholds and for the
+   false in binary64 (nextafter(a*x+b) <> a*nextafter(x)+b); there, for EER thresholds and for the
    invariance of EER and AUC values, the statement is checked on the implementation by
    harness/props/C08.py within the few ulp the property grants. *)
 Theorem C08_affine_thresholds_interior_partial :
@@ -52,6 +51,33 @@ Theorem C08_affine_thresholds_interior_partial :
   == a * threshold_at_ratio succ pred s l u inc rc m + b.
 Proof. exact tar_affine_interior. Qed.
 Print Assumptions C08_affine_thresholds_interior_partial.
+
+(* thresholds under negation, _partial: negating all scores ([mirror l] = the negated scores in ascending
+   order) and flipping score_class negates the threshold returned by _threshold_at_ratio, for every list of
+   scores, metric direction, configuration and method — whenever the target is interior for both objects
+   ([interior2]: neither answers with a one-ulp sentinel).  In the last 1/N of the scale one object returns
+   its end sample and the mirrored one the sentinel one ulp beyond it; that ulp is what the property grants
+   and the harness checks on the implementation. *)
+Theorem C08_negate_thresholds_interior_partial :
+  forall (succ pred : Q -> Q) (s s' : scores) (l : list Q) (u : Q) (inc : bool) (rc : label) (m : method),
+  score_class s' = flip (score_class s) -> equal_class s' = equal_class s -> (1 <= len l)%Z ->
+  interior2 l (tar_target s inc u) (tar_lc s rc) ->
+  threshold_at_ratio succ pred s' (mirror l) u inc rc m == - threshold_at_ratio succ pred s l u inc rc m.
+Proof. exact tar_negate_interior. Qed.
+Print Assumptions C08_negate_thresholds_interior_partial.
+
+(* the hypotheses are satisfiable, and the six public functions agree on a concrete object and its negation *)
+Example C08_negate_example :
+  let s := mk_scores [1#1; 3#1; 4#1; 9#2] [2#1; 0#1; 5#2] 0 0 Pos Neg false in
+  interior2 (pos s) (tar_target s true (1#2)) (tar_lc s Pos) /\
+  (forall mt, In mt [MTpr; MFnr; MTnr; MFpr; MTopr; MTonr] ->
+     match threshold_at succ64 pred64 mt (neg_scores s) (1#2) Linear, threshold_at succ64 pred64 mt s (1#2) Linear with
+     | Ret a, Ret b => Qeqb a (- b) = true | _, _ => False end).
+Proof.
+  split.
+  - unfold interior2, interior, shifted; cbn; repeat split; reflexivity.
+  - intros mt H. cbn [In] in H. repeat (destruct H as [<-|H]; [vm_compute; reflexivity|]). destruct H.
+Qed.
 
 Example C08_example :
   cm (swap (mk_scores [1#1; 3#1] [2#1] 1 0 Pos Neg false)) (Fin (2#1)) = mkCmz 1 0 1 2.
